@@ -58,6 +58,7 @@ def generate(rng, tier):
             if tier != "thorough" and (da + db + pa + pb) % 2 and regime != "K0":
                 continue
             cases.append({"regime": regime, "recs": recs, "uri": "u1", "modality": None, "sup": ["tl", pieces]})
+    cases += gen.decimal_copies(rng, cases, (1500 if tier == "thorough" else 150))
     cases += gen.far_copies(rng, cases, ['recs', 'sup'], (400 if tier == "thorough" else 60))
     return {"cases": cases, "meta": {"exhaustive": False,
                                      "sizes": gen.stats(cases, {"n_records": lambda c: len(c["recs"]),
